@@ -30,4 +30,14 @@ Emit == LET vs == Verdicts(KN, KM) IN
            kn |-> KN, km |-> KM, n |-> N,
            num |-> HardScore[1], den |-> HardScore[2], unit |-> HardScore[3],
            pl |-> Placements ])>>)
+
+\* placements only (cheap): used where the overlap verdict is not needed
+EmitPlacements == PrintT(<<"EMIT", ToJson([
+           g |-> g, shape |-> sh.name,
+           sr |-> IF sh.name = "trimer" THEN sh.r ELSE 0,
+           sd |-> IF sh.name = "trimer" THEN sh.d ELSE 0,
+           U |-> U, D |-> D, ax |-> ax, bx |-> bx, by |-> by, sx |-> sx, sy |-> sy,
+           c |-> C, s |-> S, h |-> Hh, verdict |-> "na", minshell |-> 99, near |-> 0,
+           kn |-> 0, km |-> 0, n |-> N, num |-> 0, den |-> 1, unit |-> "na",
+           pl |-> Placements ])>>)
 =============================================================================
